@@ -29,7 +29,7 @@ from vlib.runner import Violation, Discard, crash_clause
 
 ID = 'C03'
 LEVEL = 'exploration'
-RULE = ('Hypothesis-generated sets of 2-9 comment blocks over a fixed cast (4 plain functions, 2 records, boxed, union, enum, '
+RULE = ('Hypothesis-generated sets of 2-10 comment blocks over a fixed cast (4 plain functions, 2 records, boxed, union, enum, '
         'flags, 3 constants, 2 callbacks, classes FooObj/FooSubObj + interface FooIface from a dump with 8 properties, 6 signals, '
         'instance/class-struct fields, 5 virtual slots with/without invoker; 3 world flags). Block identifiers are real names in all '
         'documented forms (symbol, Class:prop, Class::sig, Struct.field, ClassStruct::vfunc, member, constant, type) or near misses '
@@ -388,8 +388,12 @@ def _ann_value(draw, ann, e, W):
         return draw(st.sampled_from(['42', 'hello', 'TRUE']))
     if ann == 'virtual':
         return draw(st.sampled_from((ci['slots'] or ['frob']) * 3 + ['nope']))
-    if ann in ASYNC_ATTRS:
-        return draw(st.sampled_from(['read_end', 'read_now', 'read_begin', 'load_finish', 'load', 'load_async', 'other_async', 'nope_finish']))
+    if ann == 'finish-func':         # mostly names that contradict the X_async/X_finish naming heuristic
+        return draw(st.sampled_from(['read_end', 'nope_finish', 'read_end', 'load_finish', 'read_now']))
+    if ann == 'sync-func':
+        return draw(st.sampled_from(['read_now', 'load', 'other_sync', 'read_end']))
+    if ann == 'async-func':
+        return draw(st.sampled_from(['read_begin', 'load_async', 'other_async']))
     if ann in CLASS_FUNCS or ann in REC_FUNCS:
         return draw(st.sampled_from(['foo_rec_copy', 'foo_rec_free', 'foo_boxed_copy', 'foo_boxed_free', 'foo_obj_ref', 'foo_missing_fn']))
     if ann == 'type':
@@ -475,6 +479,10 @@ def _block(draw, W, mode):
             cands = hit
         else:
             first = 'virtual'
+    elif mode == 'async':
+        first = draw(st.sampled_from(sorted(ASYNC_ATTRS)))
+        fam = ASYNC_FAMILY[:2] if (first == 'finish-func' and draw(st.booleans())) else ASYNC_FAMILY
+        cands = [W['funcs'][f] for f in fam]
     elif mode == 'confuse':
         first, kinds = draw(st.sampled_from(CONFUSIONS))
         kind = draw(st.sampled_from(kinds))
@@ -555,6 +563,8 @@ def cases(draw):
         modes.append('invoker')
     if draw(st.integers(0, 2)) == 0:
         modes.append('confuse')
+    if draw(st.integers(0, 3)) == 0:
+        modes.append('async')
     blocks = []
     used = set()
     for m in modes:
@@ -1044,7 +1054,7 @@ def check_case(case, ctx):
                 srcs.append(by_ident[auto])
             for ob in blocks:
                 oe = W['idents'].get(ob['ident'])
-                if oe is not None and oe['kind'] == 'function' and oe.get('owner') == cls and oe['role'] == 'method' \
+                if oe is not None and oe['kind'] == 'function' and oe.get('owner') == cls \
                         and _ann(ob, 'virtual') == slot and ob not in srcs:
                     srcs.append(ob)
             if len(srcs) != 1 or _has(srcs[0], 'constructor'):
@@ -1180,9 +1190,10 @@ def _leak_bucket(e, x):
 def _leak_known(b, e, W, x, an, kt, by_ident):
     """Key of the known finding a leak matches, or None."""
     # the invoker's block is merged into a virtual method that has a block of its own
-    if e['kind'] == 'function' and e['role'] == 'method' and e.get('owner') in W['classes'] and x.tag == 'virtual-method':
+    if e['kind'] == 'function' and e.get('owner') in W['classes'] and x.tag == 'virtual-method':
         slot = x.attrs.get('name')
-        if ('%s::%s' % (W['classes'][e['owner']]['struct'], slot)) in by_ident and (e['name'] == slot or _ann(b, 'virtual') == slot):
+        if ('%s::%s' % (W['classes'][e['owner']]['struct'], slot)) in by_ident \
+                and ((e['role'] == 'method' and e['name'] == slot) or _ann(b, 'virtual') == slot):
             return 'vfunc-own-block-overridden-by-invoker-block'
     return None
 
@@ -1218,10 +1229,10 @@ def _rules(b, e, W, blocks, by_ident, component, A, Bi):
             for s in component(b['ident']):
                 rules.append((p_cid(s), set(['shadows', 'shadowed-by']), set()))
         cls = e.get('owner') if e.get('owner') in W['classes'] else None
-        if cls and e['role'] == 'method':
+        if cls:
             ci = W['classes'][cls]
             slots = set()
-            if e['name'] in ci['slots']:
+            if e['role'] == 'method' and e['name'] in ci['slots']:
                 slots.add(e['name'])
             if _has(b, 'virtual') and _ann(b, 'virtual') in ci['slots']:
                 slots.add(_ann(b, 'virtual'))
@@ -1232,7 +1243,7 @@ def _rules(b, e, W, blocks, by_ident, component, A, Bi):
                 else:
                     rules.append((p_child(cls, 'virtual-method', s), None, None))
             for a in ('set-property', 'get-property'):
-                if _has(b, a):
+                if _has(b, a) and e['role'] == 'method':
                     rules.append((p_child(cls, 'property', _ann(b, a), False), set(['setter', 'getter']), set()))
         if any(_has(b, a) for a in ASYNC_ATTRS):
             rules.append((p_callable_any(), set(ASYNC_ATTRS.values()), set()))
@@ -1248,7 +1259,7 @@ def _rules(b, e, W, blocks, by_ident, component, A, Bi):
 
 
 def plan(tier):
-    n = 24 if tier == 'quick' else 1200
+    n = 30 if tier == 'quick' else 1200
     if os.environ.get('VERIF_C03_N'):          # development aid: cases per shard
         n = int(os.environ['VERIF_C03_N'])
     return [{'n': n, 'part': i} for i in range(16)]
